@@ -58,10 +58,14 @@ impl GraphStore for GraphEngine {
     type Snapshot = StorageSnapshot;
 
     fn snapshot(&self) -> Self::Snapshot {
-        let i2e = Arc::new(self.scan_i2e_records());
-        #[cfg(nervusdb_verif)]
-        crate::verif::sched("snapshot.after_i2e");
-        let inner = self.begin_read();
+        // The node table and the published fields are copied under one shared hold of the
+        // publication gate, so they belong to the same set of committed transactions.
+        let (i2e, inner) = self.with_publish_gate_shared(|| {
+            let i2e = Arc::new(self.scan_i2e_records());
+            #[cfg(nervusdb_verif)]
+            crate::verif::sched("snapshot.after_i2e");
+            (i2e, self.begin_read_gated())
+        });
         let tombstoned_nodes: HashSet<InternalNodeId> = collect_tombstoned_nodes(inner.runs());
         StorageSnapshot {
             inner,
